@@ -38,6 +38,9 @@ type GateScript struct {
 	Accept []string `json:"accept"` // Accept header lines (nil = absent)
 	PV     *string  `json:"pv"`     // Mcp-Protocol-Version (nil = absent)
 	Size   string   `json:"size"`   // "" (default limit) | limit-1 | limit | limit+1 | limit+100
+	// Chunked: the POST body is sent without a declared length (Transfer-Encoding: chunked, or HTTP/2
+	// without content-length): the server sees ContentLength == -1.
+	Chunked bool `json:"chunked,omitempty"`
 
 	MethodHdr string   `json:"method_hdr"` // none | ok | wrong | case
 	NameHdr   string   `json:"name_hdr"`   // none | ok | wrong | case | other
@@ -280,6 +283,7 @@ func genGates(rt *rapid.T) GateScript {
 		} else {
 			s.Size = rapid.SampledFrom([]string{"", "limit-1", "limit", "limit"}).Draw(rt, "size")
 		}
+		s.Chunked = rapid.IntRange(0, 2).Draw(rt, "chunked") == 0
 	}
 
 	// mirrored headers
@@ -657,6 +661,10 @@ type rawPeer struct {
 
 // do sends one request and returns its exchange once everything has settled.
 func (p *rawPeer) do(verb, target, host string, h http.Header, body []byte) *memhttp.Exchange {
+	return p.doLen(verb, target, host, h, body, false)
+}
+
+func (p *rawPeer) doLen(verb, target, host string, h http.Header, body []byte, unknownLength bool) *memhttp.Exchange {
 	var rd io.Reader
 	if body != nil {
 		rd = bytes.NewReader(body)
@@ -667,6 +675,9 @@ func (p *rawPeer) do(verb, target, host string, h http.Header, body []byte) *mem
 	}
 	req.Header = h.Clone()
 	req.Host = host
+	if unknownLength && body != nil {
+		req.ContentLength = -1
+	}
 	before := len(p.tr.Exchanges())
 	go func() {
 		resp, err := p.tr.RoundTrip(req)
@@ -824,7 +835,10 @@ func runGatesInBubble(s GateScript) (res vt.Result) {
 	// the probe
 	body, limit, h := s.literal(sessionID)
 	viol := judge(&s, body, limit, h)
-	ex := probe.do(s.Verb, target, s.Host, h, body)
+	ex := probe.doLen(s.Verb, target, s.Host, h, body, s.Chunked)
+	if s.Chunked {
+		res.Class("body_without_declared_length")
+	}
 	if ex == nil {
 		res.Failf("harness: the probe produced no exchange")
 		return
